@@ -280,9 +280,14 @@ theorem frame (beh : Beh) : ∀ fuel,
             · -- multi
               refine ((hA2.trans (alloc_ext _ s _ _ _)).trans (logCtor_ext _ s _ _ _ _ _ _ (hev _ hd2))).trans
                 (storeOuts_ext s _ _ _ ?_)
+              have h0 : ∀ sd ∈ (if (d.sibs.filterMap (findDesc (bumpInv ra.1 d.ctor).descs)).isEmpty then [d]
+                  else d.sibs.filterMap (findDesc (bumpInv ra.1 d.ctor).descs)), sd.life ≠ .singleton := by
+                split
+                · intro sd hsd; simp at hsd; subst hsd; exact hl
+                · exact hsibs
               split
-              · intro sd hsd; simp at hsd; subst hsd; exact hl
-              · exact hsibs
+              · intro sd hsd; exact h0 sd (List.mem_of_mem_eraseIdx hsd)
+              · exact h0
             · -- plain (with aliases)
               have h34 := ((hA2.trans (alloc_ext _ s 1 d.ctor ((bumpInv ra.1 d.ctor).invs d.ctor))).trans (logCtor_ext _ s
                 d.id d.ctor ((bumpInv ra.1 d.ctor).invs d.ctor) s args [(bumpInv ra.1 d.ctor).next] (hev _ hd2))).trans
